@@ -98,7 +98,7 @@ def runI (rest : String) : String :=
 
 /-- model answer for a case line of this slice; `none` when the kind is not ours -/
 def run (kind : Char) (rest : String) : Option String :=
-  if kind = 'I' then some (runI rest) else none
+  if kind = 'I' || kind = 'J' then some (runI rest) else none
 
 /-! ### oracle: parsing the case, the configuration and the real answer -/
 
@@ -196,7 +196,16 @@ def oracleC05 (itemWords : List String) (rest real : String) : String :=
         let diff := firstDiff expected got 0
         s!"FAIL C05 token {diff.1}: expected {diff.2.1} got {diff.2.2} -- all expected [{" ".intercalate expected}] got [{" ".intercalate got}]"
       else if !(allOneCallback (realRuns real)) then "FAIL C05 C06 callback count is not 1 per delivery"
-      else "ok"
+      else
+        -- further runs that deliver the same bytes (cut differently, possibly multiplexed with the first: kind `J`)
+        let others := ((caseRuns rest).zip (realRuns real)).drop 1 |>.filter fun (c, r) =>
+          c.flatten = bytes && runToks r ≠ expected
+        match others with
+        | [] => "ok"
+        | (_, r) :: _ =>
+          let got := runToks r
+          let diff := firstDiff expected got 0
+          s!"FAIL C05 (another connection receiving the same bytes) token {diff.1}: expected {diff.2.1} got {diff.2.2}"
 
 /-! ### C06 -/
 
@@ -357,7 +366,7 @@ def oracleC20 (cfgWords : List String) (rest real : String) : String :=
 
 /-- oracle verdict (`ok` / `FAIL <ids> …`) given the case, the configuration prefix and the real answer -/
 def oracle (kind : Char) (cfg rest real : String) : Option String :=
-  if kind ≠ 'I' then none else
+  if kind ≠ 'I' && kind ≠ 'J' then none else
   match words cfg with
   | "C05" :: items => some (oracleC05 items rest real)
   | "C06" :: _ => some (oracleC06 rest real)
